@@ -519,6 +519,50 @@ def rule_d(ctx: Context, R: Reporter, cc: ClassInfo, v: FuncInfo):
                     R.check("C18.d", f"{tg[0].name}({pn}=...) is supplied from the configuration", reads, fi, c,
                             msg=f"{fi.short}: `{tg[0].name}({pn}={unparse(rx)[:40]})` does not pass the configured `{pn}`", key=f"plumbing:{tg[0].name}.{pn}")
     R.floor("C18.d", "component constructor parameters named like configuration fields", n, 12)
+    # positional arguments are not name-crossed: an argument spelled like one parameter of the callee is not passed
+    # in the position of another (swapped `periodic` / `reflective`, `u` / `x`, ...)
+    n_pos = 0
+    for fi in ctx.prog.functions.values():
+        for (c, tg) in ctx.cg.sites.get(fi.qualname, []):
+            callee = None
+            for t in tg:
+                if isinstance(t, FuncInfo):
+                    callee = t
+                elif isinstance(t, ClassInfo):
+                    callee = ctx.prog.mro_lookup(t, "__init__")
+            if callee is None or len([t for t in tg if isinstance(t, (FuncInfo, ClassInfo))]) != 1:
+                continue
+            # pure forwarding constructors `def __init__(self, *args, **kwargs): super().__init__(*args, **kwargs)`
+            hops = 0
+            while callee is not None and callee.node.args.vararg is not None and not [a for a in callee.node.args.args if a.arg not in ("self", "cls")] and callee.cls is not None and hops < 4:
+                fwd = [x for x in ast.walk(callee.node) if isinstance(x, ast.Call) and isinstance(x.func, ast.Attribute) and x.func.attr == callee.name
+                       and isinstance(x.func.value, ast.Call) and dotted(x.func.value.func) == "super" and any(isinstance(a, ast.Starred) for a in x.args)]
+                nxt = None
+                if fwd:
+                    for b in ctx.prog.bases(callee.cls):
+                        nxt = ctx.prog.mro_lookup(b, callee.name)
+                        if nxt is not None:
+                            break
+                callee = nxt
+                hops += 1
+            if callee is None:
+                continue
+            ps = [p for p in callee.params]
+            if callee.cls is not None and not callee.is_staticmethod and ps and ps[0] in ("self", "cls"):
+                ps = ps[1:]
+            for i, a in enumerate(c.args):
+                if isinstance(a, ast.Starred) or i >= len(ps):
+                    break
+                nm = a.id if isinstance(a, ast.Name) else (a.attr if isinstance(a, ast.Attribute) else None)
+                if nm is None:
+                    continue
+                n_pos += 1
+                if nm != ps[i] and nm in ps:
+                    R.check("C18.d", "positional arguments are not name-crossed", False, fi, c,
+                            msg=f"{fi.short}: `{unparse(c)[:70]}` passes `{nm}` in the position of parameter `{ps[i]}` of {callee.short}, which also has a parameter `{nm}`: "
+                                f"the two options are exchanged for this component", key=f"crossed-argument:{callee.short}:{nm}->{ps[i]}")
+    R.analysed["C18.d:positional_name_arguments"] = n_pos
+    R.check("C18.d", f"no name-crossed positional argument among {n_pos} positional name arguments of internal calls", True, None, None, key="crossed-argument-scan", loc="tempest/")
 
 
 def run(ctx: Context, R: Reporter):
